@@ -283,4 +283,6 @@ def to_term(av):
         return call("indexer:" + av.kind, to_term(av.recv))
     if av is None:
         return const(None)
+    if hasattr(av, "src") and hasattr(av, "gain"):
+        return call(type(av).__name__.lower(), av.src, av.gain if av.gain is not None else const(1.0))
     return const(repr(av))
